@@ -115,7 +115,7 @@ def run_fuzz(prop, tier, seed, targets, mod, e1_results=(), t0=None, regress_n=0
         running, done = [], []
         failure = None
         ji = 0
-        deadline = time.time() + (3 * 3600 if tier == "thorough" else 1500)
+        deadline = time.time() + (4 * 3600 if tier == "thorough" else 2700)
         while (ji < len(jobs) or running) and failure is None:
             while ji < len(jobs) and len(running) < NCPU:
                 t, c, w = jobs[ji]
@@ -165,6 +165,7 @@ def run_fuzz(prop, tier, seed, targets, mod, e1_results=(), t0=None, regress_n=0
 
         # ---- evidence numbers
         execs, nt_execs, classes, samples, distinct = 0, 0, {}, [], 0
+        known_excluded = 0
         per_target = {}
         for t in targets:
             bitmaps = []
@@ -181,6 +182,8 @@ def run_fuzz(prop, tier, seed, targets, mod, e1_results=(), t0=None, regress_n=0
                         elif f[0] == "nontrivial_execs":
                             nt_execs += int(f[1])
                             per_target.setdefault(t.name, {"execs": 0, "nontrivial_execs": 0})["nontrivial_execs"] += int(f[1])
+                        elif f[0] == "known_excluded":
+                            known_excluded += int(f[1])
                         elif f[0] == "class":
                             k = t.name + ":" + f[1]
                             classes[k] = classes.get(k, 0) + int(f[2])
@@ -197,6 +200,7 @@ def run_fuzz(prop, tier, seed, targets, mod, e1_results=(), t0=None, regress_n=0
                  "classes": dict(sorted(classes.items())), "per_target": per_target, "nontrivial_execs": nt_execs,
                  "builds": {k[0] + "/" + k[1]: os.path.basename(os.path.dirname(v)) for k, v in exes.items()},
                  "campaign_states": sorted({st for (_, _, _, _, st) in done}),
+                 "excluded_known": ({k["signature"]: known_excluded for k in known_open} if known_excluded else {}),
                  "distinct_counting": "popcount of the OR of per-worker 2^26-bit linear-counting bitmaps of FNV hashes of non-trivial inputs: a lower bound"}
 
         if failure is not None:
@@ -237,6 +241,10 @@ def run_fuzz(prop, tier, seed, targets, mod, e1_results=(), t0=None, regress_n=0
             log("KNOWN-FINDING: property=%s %s" % (prop, k["what"]))
         if execs == 0:
             log("INCONCLUSIVE: no executions recorded")
+            return 2
+        missing = [c for c in getattr(mod, "FUZZ_MUST_COVER", []) if classes.get(c, 0) == 0]
+        if missing:
+            log("INCONCLUSIVE generator: fuzz classes never produced: " + ", ".join(missing))
             return 2
         log("%s %s (fuzz): held on %d executions (>= %d distinct non-trivial) in %.1fs" % (prop, tier, execs, distinct, time.time() - t0))
         return 0
